@@ -283,6 +283,9 @@ type SnapshotStore interface {
 	// SetDueNext sets the type of snapshot due next.
 	SetDueNext(snapshot.Type) error
 
+	// FullNeededToken identifies the full-snapshot requirement currently in force, if any.
+	FullNeededToken() (string, bool)
+
 	// Stats returns stats about the Snapshot Store.
 	Stats() (map[string]any, error)
 
@@ -2689,6 +2692,8 @@ func (s *Store) fsmSnapshot() (fSnap raft.FSMSnapshot, retErr error) {
 	}()
 
 	var fsmSnapshot raft.FSMSnapshot
+	var fullNeededToken string
+	var hasFullNeededToken bool
 	finalizer := s.createSnapshotFingerprint
 	if dueNext.IsFull() {
 		// We need to start the snapshoting process over again, starting with a full copy of the SQLite
@@ -2709,6 +2714,10 @@ func (s *Store) fsmSnapshot() (fSnap raft.FSMSnapshot, retErr error) {
 		if err := s.snapshotStore.SetDueNext(snapshot.Full); err != nil {
 			return nil, err
 		}
+		// This is the requirement the snapshot captured below will satisfy once installed.
+		// Apply cannot run concurrently with this function, so a load applied later raises
+		// a different one, which that installation then leaves in force.
+		fullNeededToken, hasFullNeededToken = s.snapshotStore.FullNeededToken()
 		// Any WAL files still in the staging directory (left there by an earlier snapshot
 		// whose persist was skipped or failed) describe changes relative to the previous
 		// snapshot chain, possibly to a database that has since been replaced. The full
@@ -2807,9 +2816,11 @@ func (s *Store) fsmSnapshot() (fSnap raft.FSMSnapshot, retErr error) {
 	dur := time.Since(startT)
 	stats.Get(snapshotCreateDuration).(*expvar.Int).Set(dur.Milliseconds())
 	fs := FSMSnapshot{
-		Type:        dueNext,
-		FSMSnapshot: fsmSnapshot,
-		Finalizer:   finalizer,
+		Type:               dueNext,
+		FSMSnapshot:        fsmSnapshot,
+		Finalizer:          finalizer,
+		FullNeededToken:    fullNeededToken,
+		HasFullNeededToken: hasFullNeededToken,
 		OnRelease: func(invoked, succeeded bool) {
 			if !invoked {
 				s.logger.Printf("persisting %s snapshot was not invoked on node ID %s", dueNext, s.raftID)
